@@ -453,7 +453,9 @@ func (p *Parser) parseAccountDirective(startPos Position) ast.Directive {
 	p.advance()
 
 	if p.current.Type == TokenText {
-		accountName += " " + p.current.Value
+		if p.current.Value != "" {
+			accountName += " " + p.current.Value
+		}
 		p.advance()
 	}
 
